@@ -34,6 +34,7 @@ RULE = ('one evaluation = one seeded run: (hist) a 20-150 call Cache history wit
         '(fixture) the committed directory written by the pinned release read back against its manifest (every key/value representation, '
         'tags, expiry, settings, queue order, shard routing, JSONDisk, Deque, Index) and then modified; non-trivial = at least one '
         'lifecycle event / the fixture was read; distinct = SHA-256 of the case')
+RULE += ' ' + 'A third of the object scenarios build the FanoutCache / Deque / Index without a directory (own temporary directory) and collect the earlier handles after every lifecycle event.'
 ASSUMPTIONS = ['a real fork() carrying an open SQLite handle is not simulated; the pid-change seam checks the library\'s reaction to it',
                'the fixture was written on POSIX by the pinned release (fixtures/make_fixture.py)']
 PROBES = ('lifecycle', 'fork', 'thread_stretch', 'pickle', 'fixture_items', 'newproc', 'move', 'own_temporary_directory')
